@@ -12,7 +12,7 @@ PEPS = ["AAK", "CCK", "DDR", "EEK", "FMR", "GGK", "HHR", "IIK"]
 PEP_VALUES = ["1/1048576", "1/8192", "1/256", "1/64", "1/4", "3/4"]
 
 
-def write_evidence(path, rows, silac, tmt=0, colperm=None):
+def write_evidence(path, rows, silac, tmt=0, colperm=None, bom=False):
     cols = ["Sequence", "Modified sequence", "Leading proteins", "Leading razor protein", "PEP", "Score", "Experiment",
             "Charge", "Intensity", "Raw file", "Fraction", "id"]
     sil = {2: ["Intensity L", "Intensity H"], 3: ["Intensity L", "Intensity M", "Intensity H"]}.get(silac, [])
@@ -30,7 +30,8 @@ def write_evidence(path, rows, silac, tmt=0, colperm=None):
         slots = [i for i, k in enumerate(perm) if header[k] in tm]
         for i, k in zip(slots, sorted(perm[i] for i in slots)):
             perm[i] = k
-    with open(path, "w", newline="") as f:
+    # (optionally with a UTF-8 byte-order mark, as spreadsheet exports write it: the first header cell must still be recognised)
+    with open(path, "w", newline="", encoding="utf-8-sig" if bom else "utf-8") as f:
         w = csv.writer(f, delimiter="\t")
         w.writerow([header[k] for k in perm])
         for r in rows:
@@ -106,6 +107,7 @@ class QuantSuite(Suite):
                     "tmt": self.tmt_choice(rng, silac)}
             if rng.random() < 0.3:
                 case["colperm"] = rng.randint(1, 10 ** 6)
+                case["bom"] = rng.random() < 0.5
             if rng.random() < 0.25:
                 # an experimental design: raw files assigned to experiments whose names do NOT sort in the order they are listed
                 # (E2 before E10, B before A): the per-experiment columns follow the design's order
@@ -136,10 +138,13 @@ class QuantSuite(Suite):
         from picked_group_fdr.writers.base import ProteinGroupsWriter
         d = tempfile.mkdtemp(prefix="c12_", dir=core.scratch())
         ev = os.path.join(d, "evidence.txt")
-        write_evidence(ev, case["rows"], case["silac"], case.get("tmt", 0), case.get("colperm"))
+        write_evidence(ev, case["rows"], case["silac"], case.get("tmt", 0), case.get("colperm"), case.get("bom", False))
         st = ProteinScoringStrategy("no_remap bestPEP")
-        parsed = [list(t) for t in psm.parse_evidence_file_multiple([ev], peptide_to_protein_maps=[None], score_type=st,
-                                                                    for_quantification=True)]
+        try:
+            parsed = [list(t) for t in psm.parse_evidence_file_multiple([ev], peptide_to_protein_maps=[None], score_type=st,
+                                                                        for_quantification=True)]
+        except Exception as e:          # a well-formed evidence file is never refused
+            return {"raise": "OtherError", "parsed": [], "cutoffs": [], "msg": f"evidence parser raised {type(e).__name__}: {e}"[:200]}
         # the rows the model is given are the parser's (C10 ties the parser for inference; its quantification fields are tied HERE):
         # charge, raw file, experiment, intensity, PEP, SILAC / TMT vectors and id of every row must be those of the file's row
         def same(a, b):
